@@ -128,7 +128,7 @@ def _eval(case):
         clean = sanitize(seen)
         want = ref_parts(clean)
         for js in (False, True):
-            net = fakenet.FakeNet(segment=case.get('segment', 0))
+            net = fakenet.FakeNet(segment=case.get('segment', 0), eagain_every=case.get('eagain', 0))
             if case.get('role') == 'client':
                 net.pending_clients.append(fakenet.Server(spec))
                 r = drive.run_cli(['-n'] + (['-j'] if js else []) + ['-c'], net)
@@ -172,7 +172,7 @@ def _eval(case):
                 if clean != seen and not any('non-printable' in x for x in tr.gen.get('banner contains non-printable ASCII', []) + [l for l in lines if 'non-printable' in l]):
                     fails.append(['cli-non-conforming-flag' + tag, repr(line)])
         nt = bool(header) or want[2] is not None or clean != seen or bool(case.get('segment'))
-        return mkres(case, nt=nt, classes=['cli', 'role:' + case.get('role', 'server'), 'headers:%d' % min(len(header), 4), 'segment:%s' % case.get('segment', 0), 'eol:' + repr(eol)], fails=fails)
+        return mkres(case, nt=nt, classes=['cli'] + (['reads-interrupted-by-EAGAIN'] if case.get('eagain') else []) + ['role:' + case.get('role', 'server'), 'headers:%d' % min(len(header), 4), 'segment:%s' % case.get('segment', 0), 'eol:' + repr(eol)], fails=fails)
     raise ValueError(k)
 
 
@@ -252,7 +252,10 @@ def strat_cli():
 
     def build(t):
         line, headers, eol, seg, role = t
-        return {'kind': 'cli', 'line': line, 'header': headers, 'eol': eol, 'segment': seg, 'role': role}
+        c = {'kind': 'cli', 'line': line, 'header': headers, 'eol': eol, 'segment': seg, 'role': role}
+        if seg and (len(line) + len(headers)) % 3 == 0:
+            c['eagain'] = 2 + len(line) % 3          # now and then a read reports EAGAIN between two segments
+        return c
     return st.tuples(line_st(), st.lists(hdr, min_size=0, max_size=4), st.sampled_from(['\r\n', '\n']), st.sampled_from([0, 0, 0, 1, 2, 7, 64]), st.sampled_from(['server', 'server', 'client'])).map(build)
 
 
@@ -285,6 +288,10 @@ def run(ctx):
             grid.append({'kind': 'cli', 'line': 'SSH-2.0-OpenSSH_8.9p1 Ubuntu-3ubuntu0.1', 'header': ['notice', 'x' * n + ' end', 'SSH is monitored'], 'eol': '\n', 'segment': seg})
             grid.append({'kind': 'cli', 'line': 'SSH-2.0-Server_1.0 ' + 'c' * n, 'header': [], 'eol': '\r\n', 'segment': seg})
             grid.append({'kind': 'cli', 'line': 'SSH-2.0-' + 's' * n, 'header': ['hello'], 'eol': '\n', 'segment': seg})
+    for seg in (1, 2, 5, 7, 11, 19):
+        for k in (2, 3, 4):
+            grid.append({'kind': 'cli', 'line': 'SSH-2.0-OpenSSH_8.9p1 Ubuntu-3ubuntu0.1', 'header': ['Welcome to host', '* authorised use only *'], 'eol': '\r\n', 'segment': seg, 'eagain': k})
+            grid.append({'kind': 'cli', 'line': 'SSH-1.99-dropbear_2020.81', 'header': [], 'eol': '\n', 'segment': seg, 'eagain': k, 'role': 'client'})
     # a notice of a few dozen lines in front of the identification string, delivered byte by byte (thousands of reads)
     notice = ['* line %02d of the notice: authorised use only, sessions are recorded *' % i for i in range(30)]
     for seg in (1, 2, 3):
